@@ -16,6 +16,11 @@ use std::sync::atomic::Ordering as StdOrdering;
 
 // The included file refers to these at the crate root, like in vouched_time.
 pub const BASE_TIME_CHECK: raffle::CheckingParameters = raffle::CheckingParameters::parse_or_die("CHECK-fc1da7b1b77c57cb-594b9cce3091464a");
+// Mirrors of the other crate-root items of vouched_time that atomic_base_time.rs could refer to.
+#[allow(dead_code)]
+pub const MAX_FORWARD_DISCREPANCY_MS: u64 = 2990;
+#[allow(dead_code)]
+pub const MAX_BACKWARD_DISCREPANCY_MS: u64 = 59_900;
 const VOUCH: raffle::VouchingParameters = raffle::VouchingParameters::parse_or_die("VOUCH-773ec2a0e62c20cd-f9e079b78e895091-fc1da7b1b77c57cb-594b9cce3091464a");
 
 fn pair(t: u64) -> (u64, raffle::Voucher) {
@@ -286,5 +291,6 @@ fn main() {
             "mutex poisoning is not modelled (clear_poison is a no-op in the loom stand-in)".into(),
             "<= 3 threads besides main, <= 3 operations per thread".into(),
         ],
+        decode_breadcrumb: None,
     });
 }
